@@ -18,6 +18,7 @@ import DnaModel.Props.C10
 import DnaModel.Props.C15
 import DnaModel.Props.C02
 import Mathlib.Tactic.Linarith
+import Mathlib.Algebra.Order.Field.Basic
 set_option linter.unusedVariables false
 set_option linter.unusedSimpArgs false
 namespace Dna.C08
@@ -1024,6 +1025,211 @@ theorem translation_localSound (n tbl : Nat) (tb : Gen.CodonTable) (ht : tableOf
   · intro wa wb s t hn
     exact translation_soundAt tbl tb ht tr a m wa wb st 0 hst s t (by omega) none
 
+/-! ### windowed EnforceGCContent (forward / unstranded location) -/
+
+theorem pos_nonneg' (a : Rat) : 0 ≤ NumK.pos a := by
+  simp only [NumK.pos, Score.lt, Score.zero]
+  split
+  · rename_i h; exact le_of_lt (of_decide_eq_true h)
+  · exact le_refl 0
+
+theorem gcBreach_nonneg' (mini maxi g : Rat) : 0 ≤ gcBreach mini maxi g := by
+  simp only [gcBreach, Score.add]
+  have := pos_nonneg' (NumK.sub mini g)
+  have := pos_nonneg' (NumK.sub g maxi)
+  linarith
+
+theorem gcBreach_eq_zero_iff (mini maxi g : Rat) : gcBreach mini maxi g = 0 ↔ (mini ≤ g ∧ g ≤ maxi) := by
+  have h1 := pos_nonneg' (NumK.sub mini g)
+  have h2 := pos_nonneg' (NumK.sub g maxi)
+  simp only [gcBreach, Score.add]
+  constructor
+  · intro h
+    have e1 : NumK.pos (NumK.sub mini g) = 0 := by linarith
+    have e2 : NumK.pos (NumK.sub g maxi) = 0 := by linarith
+    simp only [NumK.pos, NumK.sub, Score.lt, Score.zero] at e1 e2
+    constructor
+    · by_contra hc
+      have : (0 : Rat) < mini - g := by linarith [not_le.1 hc]
+      simp only [this, decide_true, if_true] at e1
+      linarith
+    · by_contra hc
+      have : (0 : Rat) < g - maxi := by linarith [not_le.1 hc]
+      simp only [this, decide_true, if_true] at e2
+      linarith
+  · rintro ⟨ha, hb⟩
+    have e1 : NumK.pos (NumK.sub mini g) = 0 := by
+      simp only [NumK.pos, NumK.sub, Score.lt, Score.zero]
+      have : ¬ ((0 : Rat) < mini - g) := by linarith
+      simp [this]
+    have e2 : NumK.pos (NumK.sub g maxi) = 0 := by
+      simp only [NumK.pos, NumK.sub, Score.lt, Score.zero]
+      have : ¬ ((0 : Rat) < g - maxi) := by linarith
+      simp [this]
+    rw [e1, e2]; simp
+
+theorem foldl_add_ge (l : List Rat) (acc : Rat) (h : ∀ x ∈ l, 0 ≤ x) : acc ≤ l.foldl Score.add acc := by
+  induction l generalizing acc with
+  | nil => exact le_refl _
+  | cons x xs ih =>
+    simp only [List.foldl_cons]
+    have hx := h x List.mem_cons_self
+    have := ih (Score.add acc x) (fun y hy => h y (List.mem_cons_of_mem _ hy))
+    simp only [Score.add] at this ⊢
+    linarith
+
+/-- a sum of non-negative terms is zero exactly when every term is -/
+theorem sum_eq_zero_iff (l : List Rat) (h : ∀ x ∈ l, 0 ≤ x) : NumK.sum l = 0 ↔ ∀ x ∈ l, x = 0 := by
+  induction l with
+  | nil => simp [NumK.sum]; rfl
+  | cons x xs ih =>
+    have hx := h x List.mem_cons_self
+    have hxs : ∀ y ∈ xs, 0 ≤ y := fun y hy => h y (List.mem_cons_of_mem _ hy)
+    simp only [NumK.sum, List.foldl_cons, List.mem_cons, forall_eq_or_imp] at ih ⊢
+    have hge := foldl_add_ge xs (Score.add (Score.zero : Rat) x) hxs
+    have h0 : Score.add (Score.zero : Rat) x = x := by simp [Score.add, Score.zero]
+    rw [h0] at hge ⊢
+    constructor
+    · intro hs
+      have hx0 : x = 0 := by linarith
+      subst hx0
+      exact ⟨rfl, (ih hxs).1 hs⟩
+    · rintro ⟨rfl, hall⟩
+      exact (ih hxs).2 hall
+
+/-- the GC fraction of the window of `w` nucleotides starting at `i` lies within the bounds -/
+def GcOk (mini maxi : Rat) (w : Nat) (s : Seq) (i : Nat) : Prop :=
+  mini ≤ frac (K := Rat) (gcCount (win s i w), w) ∧ frac (K := Rat) (gcCount (win s i w), w) ≤ maxi
+
+theorem win_win (s : Seq) (a L i w : Nat) (h : i + w ≤ L) : win (win s a L) i w = win s (a + i) w := by
+  apply List.ext_getElem?
+  intro j
+  by_cases hj : j < w
+  · rw [win_getElem? _ i w j hj, win_getElem? s (a + i) w j hj, win_getElem? s a L (i + j) (by omega)]
+    congr 1; omega
+  · have h1 : (win (win s a L) i w).length ≤ j := by simp only [win, List.length_take]; omega
+    have h2 : (win s (a + i) w).length ≤ j := by simp only [win, List.length_take]; omega
+    rw [List.getElem?_eq_none h1, List.getElem?_eq_none h2]
+
+/-- windowed `EnforceGCContent` on `[a,b)` (forward / unstranded) passes exactly when every full window of the
+    region has its GC fraction within the bounds -/
+theorem gc_passes_iff (mini maxi : Rat) (w : Nat) (hw : 1 ≤ w) (a b : Nat) (st : Int) (hst : st ≠ -1) (s : Seq)
+    (hab : a ≤ b) (hb : b ≤ s.length) :
+    PassesB (.gc mini maxi (some w) ⟨a, b, st⟩) s ↔ ∀ i, i + w ≤ b - a → GcOk mini maxi w s (a + i) := by
+  obtain ⟨w', rfl⟩ : ∃ w', w = w' + 1 := ⟨w - 1, by omega⟩
+  have hsub : (⟨(a : Int), (b : Int), st⟩ : Loc).extract s = some (win s a (b - a)) := by
+    have : (st == -1) = false := by simp [hst]
+    simp only [Loc.extract, this, Bool.false_eq_true, if_false, C15.pySlice_nat' s a b hab hb, win]
+  have hL : (win s a (b - a)).length = b - a := by simp only [win, List.length_take, List.length_drop]; omega
+  have hfr : gcFractions (win s a (b - a)) (some (w' + 1)) =
+      (List.range (b - a + 1 - (w' + 1))).map (fun i => (gcCount (win s (a + i) (w' + 1)), w' + 1)) := by
+    simp only [gcFractions, C19.gc_windows_eq_count _ _ hw, gcWindowsDirect, hL, List.map_map]
+    apply List.map_congr_left
+    intro i hi
+    simp only [Function.comp, List.mem_range] at hi ⊢
+    rw [win_win s a (b - a) i (w' + 1) (by omega)]
+  simp only [PassesB, evaluate, hsub, Option.isNone_some, Bool.false_and, Bool.false_eq_true, if_false, hfr, List.map_map]
+  have hnn : ∀ x ∈ (List.range (b - a + 1 - (w' + 1))).map
+      ((fun p => gcBreach mini maxi (frac p)) ∘ fun i => (gcCount (win s (a + i) (w' + 1)), w' + 1)), (0 : Rat) ≤ x := by
+    intro x hx
+    simp only [List.mem_map] at hx
+    obtain ⟨i, _, rfl⟩ := hx
+    exact gcBreach_nonneg' _ _ _
+  have hsum0 : (0 : Rat) ≤ NumK.sum ((List.range (b - a + 1 - (w' + 1))).map
+      ((fun p => gcBreach mini maxi (frac p)) ∘ fun i => (gcCount (win s (a + i) (w' + 1)), w' + 1))) :=
+    foldl_add_ge _ (Score.zero : Rat) hnn
+  have hmem : ∀ x, x ∈ (List.range (b - a + 1 - (w' + 1))).map
+      ((fun p => gcBreach mini maxi (frac p)) ∘ fun i => (gcCount (win s (a + i) (w' + 1)), w' + 1)) ↔
+      ∃ i, i + (w' + 1) ≤ b - a ∧ x = gcBreach mini maxi (frac (gcCount (win s (a + i) (w' + 1)), w' + 1)) := by
+    intro x
+    simp only [List.mem_map, List.mem_range, Function.comp]
+    constructor
+    · rintro ⟨i, hi, rfl⟩; exact ⟨i, by omega, rfl⟩
+    · rintro ⟨i, hi, rfl⟩; exact ⟨i, by omega, rfl⟩
+  generalize (List.range (b - a + 1 - (w' + 1))).map
+      ((fun p => gcBreach mini maxi (frac p)) ∘ fun i => (gcCount (win s (a + i) (w' + 1)), w' + 1)) = l at hnn hsum0 hmem ⊢
+  constructor
+  · rintro ⟨e, he, hsc⟩
+    simp only [Option.some.injEq] at he
+    rw [← he] at hsc
+    have hsc' : (0 : Rat) ≤ 0 - NumK.sum l := hsc
+    have hz : NumK.sum l = 0 := le_antisymm (by linarith) hsum0
+    rw [sum_eq_zero_iff _ hnn] at hz
+    intro i hi
+    have := hz _ ((hmem _).2 ⟨i, hi, rfl⟩)
+    exact (gcBreach_eq_zero_iff _ _ _).1 this
+  · intro hall
+    refine ⟨_, rfl, ?_⟩
+    have hz : NumK.sum l = 0 := by
+      rw [sum_eq_zero_iff _ hnn]
+      intro x hx
+      obtain ⟨i, hi, rfl⟩ := (hmem x).1 hx
+      exact (gcBreach_eq_zero_iff _ _ _).2 (hall i hi)
+    show (0 : Rat) ≤ 0 - NumK.sum l
+    rw [hz]; norm_num
+
+/-- the specification's location cut to the window extended by `k - 1` on both sides, as `localized` computes it -/
+theorem overlap_extended_nat (a b wa wb k : Nat) (st ws : Int) (hk : 1 ≤ k) (hov : max a wa < min b wb) :
+    (⟨(a : Int), (b : Int), st⟩ : Loc).overlap ((⟨(wa : Int), (wb : Int), ws⟩ : Loc).extended ((k : Int) - 1) 0 Option.none true true) =
+      some ⟨((max a (wa - (k - 1)) : Nat) : Int), ((min b (wb + (k - 1)) : Nat) : Int), st⟩ := by
+  simp only [Loc.overlap, Loc.extended, if_true]
+  by_cases c1 : max 0 ((wa : Int) - ((k : Int) - 1)) < (a : Int)
+  · simp only [c1, if_true]
+    have c2 : ¬ ((a : Int) ≥ (wb : Int) + ((k : Int) - 1)) := by omega
+    simp only [c2, if_false, Option.some.injEq, Loc.mk.injEq, and_true]
+    constructor <;> omega
+  · simp only [c1, if_false]
+    have c2 : ¬ (max 0 ((wa : Int) - ((k : Int) - 1)) ≥ (b : Int)) := by omega
+    simp only [c2, if_false, Option.some.injEq, Loc.mk.injEq, and_true]
+    constructor <;> omega
+
+/-- **C08, first clause, for windowed EnforceGCContent** (any bounds, window `w ≥ 1`, forward or
+    unstranded location `[a,b)`, any window `[wa,wb)` and edit): the localization the code builds
+    (location cut to the window extended by `w - 1` on both sides) is sound -/
+theorem gc_soundAt (mini maxi : Rat) (w : Nat) (hw1 : 1 ≤ w) (a b wa wb : Nat) (st ws : Int) (hst : st ≠ -1) (s t : Seq)
+    (hab : a ≤ b) (hb : b ≤ s.length) :
+    SoundAt (.gc mini maxi (some w) ⟨a, b, st⟩) ⟨wa, wb, ws⟩ none s t := by
+  intro hp hag0 hl
+  have hag : AgreeOutside wa wb s t := hag0
+  have hbt : b ≤ t.length := by rw [← hag.1]; exact hb
+  by_cases hw : wa < wb
+  case neg =>
+    have : s = t := List.ext_getElem? (fun i => hag.2 i (by omega))
+    rw [← this]; exact hp
+  rw [gc_passes_iff mini maxi w hw1 a b st hst s hab hb] at hp
+  rw [gc_passes_iff mini maxi w hw1 a b st hst t hab hbt]
+  intro i hi
+  by_cases hin : wa < a + i + w ∧ a + i < wb
+  · have hov : max a wa < min b wb := by omega
+    simp only [localized, Option.getD_none, overlap_nat a b wa wb st ws hov,
+      overlap_extended_nat a b wa wb w st ws hw1 hov] at hl
+    have hl' := (gc_passes_iff mini maxi w hw1 _ _ st hst t (by omega) (by omega)).1 hl
+    have := hl' (a + i - max a (wa - (w - 1))) (by omega)
+    have e : max a (wa - (w - 1)) + (a + i - max a (wa - (w - 1))) = a + i := by omega
+    rw [e] at this
+    exact this
+  · have hwin : win s (a + i) w = win t (a + i) w := by
+      apply win_eq_of_agree s t wa wb hag
+      omega
+    have := hp i hi
+    simp only [GcOk] at this ⊢
+    rw [← hwin]
+    exact this
+
+/-- windowed `EnforceGCContent` (forward / unstranded location inside the sequence) satisfies the hypothesis
+    of `C02.optimize_preserves_feasible` -/
+theorem gc_localSound (n : Nat) (mini maxi : Rat) (w : Nat) (hw1 : 1 ≤ w) (a b : Nat) (st : Int) (hst : st ≠ -1)
+    (hab : a ≤ b) (hb : b ≤ n) :
+    C02.LocalSound n evB lzB iniB (.gc mini maxi (some w) ⟨a, b, st⟩) := by
+  apply localSound_of_soundAt
+  · intro x
+    simp only [localized]
+    split
+    · simp
+    · split <;> simp
+  · intro wa wb s t hn
+    exact gc_soundAt mini maxi w hw1 a b wa wb st 0 hst s t hab (by omega)
+
 /-! ### the closed statement for problems made of built-in constraints
 
 The hypotheses of `C02.optimize_preserves_feasible` are met by the built-in model itself: the
@@ -1071,6 +1277,8 @@ inductive Proven (n : Nat) : BSpec Rat → Prop where
       (hb : a + 3 * m ≤ n) : Proven n (.stopCodons tbl ⟨a, (a + 3 * m : Nat), st⟩)
   | translation (tbl : Nat) (tb : Gen.CodonTable) (ht : tableOf tbl = some tb) (tr : Seq) (a m : Nat) (st : Int)
       (hst : st ≠ -1) (hb : a + 3 * m ≤ n) : Proven n (.translation tbl .none tr ⟨a, (a + 3 * m : Nat), st⟩)
+  | gcWindowed (mini maxi : Rat) (w : Nat) (hw1 : 1 ≤ w) (a b : Nat) (st : Int) (hst : st ≠ -1) (hab : a ≤ b) (hb : b ≤ n) :
+      Proven n (.gc mini maxi (some w) ⟨a, b, st⟩)
   | returnsSelf (b : BSpec Rat) (h : ∀ w, b.localized w none = .same) : Proven n b
 
 theorem proven_localSound (n : Nat) (b : BSpec Rat) (h : Proven n b) : C02.LocalSound n evB lzB iniB b := by
@@ -1079,10 +1287,11 @@ theorem proven_localSound (n : Nat) (b : BSpec Rat) (h : Proven n b) : C02.Local
   | enforceSequence sq a b st hst hab hb => exact enforceSequence_localSound n sq a b st hst hab hb
   | stopCodons tbl tb ht a m st hst hb => exact stopCodons_localSound n tbl tb ht a m st hst hb
   | translation tbl tb ht tr a m st hst hb => exact translation_localSound n tbl tb ht tr a m st hst hb
+  | gcWindowed mini maxi w hw1 a b st hst hab hb => exact gc_localSound n mini maxi w hw1 a b st hst hab hb
   | returnsSelf b h => exact same_localSound n b h
 
 /-- **C02, closed for the built-in model**: a problem whose (evaluated) constraints are AvoidChanges /
-    EnforceSequence / AvoidStopCodons / EnforceTranslation regions on the forward strand and any specifications that localize to themselves
+    EnforceSequence / AvoidStopCodons / EnforceTranslation / windowed EnforceGCContent regions on the forward strand and any specifications that localize to themselves
     (EnforceChoice, global GC bounds, edit budgets, …), with *any* objectives, on a well-formed
     mutation space: if all of them pass before `optimize()`, all of them pass after it — for every
     setting and every random tape, whether `optimize()` returns or raises. -/
